@@ -508,6 +508,23 @@ static C_MIX: [COp; 4] = [COp::Inc(1), COp::Inc(3), COp::Abs(5), COp::Abs(2)];
 static G_ALL: [GOp; 4] = [GOp::Inc(1.5), GOp::Dec(0.5), GOp::Set(4.0), GOp::Set(f64::NAN)];
 
 fn main() {
+    // a model thread that loops without ever performing a synchronisation operation cannot be preempted by loom and never
+    // ends: executions take milliseconds, so no completed execution for 30 s means exactly that
+    std::thread::spawn(|| {
+        let mut last = EXECS.load(StdOrdering::Relaxed);
+        let mut since = std::time::Instant::now();
+        loop {
+            std::thread::sleep(std::time::Duration::from_millis(500));
+            let now = EXECS.load(StdOrdering::Relaxed);
+            if now != last {
+                last = now;
+                since = std::time::Instant::now();
+            } else if since.elapsed().as_secs() >= 30 {
+                eprintln!("thread 'watchdog' panicked at loom harness: sig=call-never-returns: execution #{} has not ended for 30 s: a thread waits in a loop that performs no synchronisation operation (it can never observe another thread's progress), so its call never returns", now);
+                std::process::exit(101);
+            }
+        }
+    });
     let a: Vec<String> = std::env::args().collect();
     let scn = a.get(1).cloned().unwrap_or_default();
     let pb: Option<usize> = a.get(2).and_then(|s| s.parse().ok());
